@@ -120,8 +120,17 @@ class Recorder:
 
     def __deepcopy__(self, memo):
         # SproutMechanism.get_seeds deep-copies candidates (individual -> problem -> objective -> recorder);
-        # the recorder is an observer, not part of the copied value
-        return self
+        # the recorder is an observer, not part of the copied value - except when the harness itself branches a run with
+        # copy.deepcopy(tree) (do_dump, branch_copy): the copy of the tree gets its own copy of the recorder
+        if not getattr(self, "_branching", False):
+            return self
+        import copy as _copy
+        new = self.__class__.__new__(self.__class__)
+        memo[id(self)] = new
+        for k, v in self.__dict__.items():
+            setattr(new, k, _copy.deepcopy(v, memo))
+        new._branching = False
+        return new
 
     # ------------------------------------------------------------------ atoms
     def gid(self, x) -> int:
@@ -455,6 +464,35 @@ class Recorder:
                 np.random.set_state(st_np)
                 random.setstate(st_py)
             self.loaded_runs.append({"status": status, "events": rec2.finish(), "dump_event": rec2.dump_event_index})
+            if getattr(self, "branch_copy", False):
+                # an in-memory checkpoint: copy.deepcopy(tree), the copy is run to its end under its own (copied) recorder;
+                # it is a tree like any other, and running it must not touch the live tree
+                self._branching = True
+                try:
+                    twin = _copy.deepcopy(tree)
+                finally:
+                    self._branching = False
+                rec3 = twin._gsc.rec
+                if rec3 is self or rec3.tree is not twin:
+                    raise RuntimeError("harness: the deep copy of the tree did not get its own recorder")
+                ev["copyeq"] = int(rec3.state_digest(twin) == proj_before)
+                st_np, st_py = np.random.get_state(), random.getstate()
+                try:
+                    rec3.dump_event_index = len(rec3.events)
+                    twin.run()
+                    rec3.emit({"e": "end", "snap": rec3.snap(twin, full=True)})
+                    status3 = "ok"
+                except TooManyConsults:
+                    rec3.emit({"e": "abort", "why": "stalled", "snap": rec3.snap(twin, full=True)})
+                    status3 = "stalled"
+                except Exception as ex:  # noqa: BLE001
+                    rec3.events.append({"e": "crash", "b": [], "why": repr(ex)[:200]})
+                    status3 = "crash"
+                finally:
+                    np.random.set_state(st_np)
+                    random.setstate(st_py)
+                self.loaded_runs.append({"status": status3, "events": rec3.finish(), "dump_event": rec3.dump_event_index, "kind": "copied"})
+                ev["copystill"] = int(self.state_digest(tree, with_rng=True) == before)     # (informational)
         except Exception as ex:  # noqa: BLE001
             ev["err"] = repr(ex)[:300]
             for k in ("stutter", "loadeq", "summarysame", "verdictsame", "livestill"):
